@@ -281,7 +281,9 @@ func (self *Compiler) compileExpr(node ast.AnalyzedExpression) {
 
 		fields := make(map[string]*value.Value)
 		for _, field := range node.Fields {
-			fields[field.Key.Ident()] = value.ZeroValue(field.Expression.Type())
+			// Only a placeholder: every field is assigned below. The type of a field may not have a zero value
+			// (a function, `any` or an initialiser that never completes like `{ return; 1 }`).
+			fields[field.Key.Ident()] = value.NewValueNull()
 		}
 
 		object := *value.NewValueObject(fields)
